@@ -457,6 +457,19 @@ impl ProxyState {
                 b.extend_from_slice(der);
                 h.body = b;
             }
+            ("rw_cert_pre", 11) | ("rw_cert_app", 11) => {
+                // keep the presented list, put M's certificate in front of it / behind it
+                let der = &adv.cert.certificate[0];
+                let old = if h.body.len() >= 3 { h.body[3..].to_vec() } else { Vec::new() };
+                let mut mine = Vec::new();
+                mine.extend_from_slice(&(der.len() as u32).to_be_bytes()[1..4]);
+                mine.extend_from_slice(der);
+                let list = if what == "rw_cert_pre" { [mine, old].concat() } else { [old, mine].concat() };
+                let mut b = Vec::new();
+                b.extend_from_slice(&(list.len() as u32).to_be_bytes()[1..4]);
+                b.extend_from_slice(&list);
+                h.body = b;
+            }
             ("rw_ske_key", 12) => {
                 if let Some((_, sig)) = ske_parts(&h.body) {
                     h.body = ske_build(&adv.dh_pub, &sig);
